@@ -25,7 +25,7 @@ func init() {
 		TrustedBase:   commonTrusted,
 		Run: func(c *Ctx, tier string) []*Result {
 			drop, handle := c.RuleErrCached()
-			return []*Result{drop, handle, c.RuleErrFlags(), c.RuleErrLog(), c.RuleErrEvent(), c.RuleErrExit(), c.RuleValidate(), c.RuleIsoFresh(), c.RuleFsWriteDiscipline(), c.RuleNarrow(), c.RuleSiblingRuleId(), c.RuleFlagsReject(), c.RuleProcStart()}
+			return []*Result{drop, handle, c.RuleErrFlags(), c.RuleErrLog(), c.RuleErrEvent(), c.RuleErrExit(), c.RuleValidate(), c.RuleIsoFresh(), c.RuleFsWriteDiscipline(), c.RuleNarrow(), c.RuleSiblingRuleId(), c.RuleFlagsReject(), c.RuleProcStart(), c.RuleWalkErr()}
 		},
 	}
 }
